@@ -25,6 +25,8 @@ def main() -> int:
     sel = sys.argv[1:]
     out = ROOT / "seeded" / "SELFTEST.json"
     results = json.loads(out.read_text()) if (sel and out.exists()) else {}
+    if os.environ.get("VERIF_SELFTEST_OUT"):     # several selections in parallel (disjoint properties): merged afterwards
+        out, results = Path(os.environ["VERIF_SELFTEST_OUT"]), {}
     for d in sorted((ROOT / "seeded").iterdir()):
         if not (d / "patch.diff").exists() or (sel and not any(d.name.startswith(s) for s in sel)):
             continue
